@@ -263,7 +263,7 @@ static inline int ubuf_block_unmap(struct ubuf *ubuf, int offset)
 
     struct ubuf_block *block = ubuf_block_from_ubuf(ubuf);
     if (block->map)
-        return ubase_check(ubuf_control(ubuf, UBUF_UNMAP_BLOCK));
+        return ubuf_control(ubuf, UBUF_UNMAP_BLOCK);
     return UBASE_ERR_NONE;
 }
 
